@@ -13,7 +13,7 @@ from ..cfg import CFG, ENTRY, EXIT, RAISE
 from ..core import Ctx
 from ..flow import AV
 from ..model import AnalysisError, FuncInfo, canon, dotted, norm, walk_no_nested, body_stmts, kwarg
-from .common import conditions_at, enclosing, expand_locals, prog, resolve_local
+from .common import conditions_at, enclosing, expand_locals, prog, quant_norm, resolve_local
 
 RI_FIELDS = ("_annotations", "_categories", "bound_inf", "bound_sup")
 # named friend sites outside class Continuum that may write the representation, one reason each
@@ -789,11 +789,11 @@ def rule_accessors(ctx: Ctx):
                 import copy as _c
                 v = _c.deepcopy(v)
                 v.args[0] = ast.GeneratorExp(elt=v.args[0].elt, generators=v.args[0].generators)
-            got = canon(v)
+            got = canon(quant_norm(v))
             sn = f.self_name
             if sn and sn != "self":
                 got = got.replace(sn + ".", "self.")
-        ok = got is not None and got in {canon(a) for a in accepted}
+        ok = got is not None and got in {canon(quant_norm(ast.parse(a, mode="eval").body)) for a in accepted}
         if ok:
             ctx.ok("R-SUP", f, b[0], f"{qn} == {norm(b[0].value)}", key="accessor")
         elif got is None:
